@@ -292,6 +292,10 @@ class PrettyPrinter:
         # symbol needs special treatment
         if key == "symbol" and level > 0:
             return False
+        # some keywords share their name with a block type, but have simple values
+        # e.g. SYMBOLSET "symbols.sym", STYLE 1 in a SCALEBAR, SYMBOL "circle" in a STYLE
+        if key in COMPLEX_TYPES and not isinstance(composite[key], (dict, list)):
+            return False
         return (
             key in COMPLEX_TYPES
             or self.is_composite(key)
